@@ -1,10 +1,24 @@
 from __future__ import annotations
 
 import logging
+import math
 
 import claripy
 
 log = logging.getLogger(__name__)
+
+
+def value_equals(e, v):
+    """
+    A Boolean AST that holds exactly when the expression `e` has the value `v` that a solver returned for it. For
+    floating point numbers this is not `e == v`, which is the IEEE comparison: NaN is a value although it is not equal to
+    itself, and +0.0 and -0.0 are two values although they are equal.
+    """
+    if isinstance(e, claripy.ast.FP) and isinstance(v, float):
+        if math.isnan(v):
+            return claripy.fpIsNaN(e)
+        return claripy.And(claripy.Not(claripy.fpIsNaN(e)), e.raw_to_bv() == claripy.FPV(v, e.sort).raw_to_bv())
+    return e == v
 
 
 class ConstraintExpansionMixin:
@@ -19,7 +33,7 @@ class ConstraintExpansionMixin:
         # add constraints to help the solver out later
         # TODO: does this really help?
         if len(extra_constraints) == 0 and len(results) < n:
-            self.add([claripy.Or(*[e == v for v in results])], invalidate_cache=False)
+            self.add([claripy.Or(*[value_equals(e, v) for v in results])], invalidate_cache=False)
 
         return results
 
